@@ -36,6 +36,7 @@ Clauses(c) ==
        <<"PlanVsInstalled", PlanVsInstalled(c)>>,
        <<"InstalledFlag", InstalledFlagWrong(c)>>,
        <<"TreeVsInstalled", TreeVsInstalled(c)>>,
+       <<"PlanVsTree", PlanVsTree(c)>>,
        <<"BuildFilesExist", SeqToSet(c.bs_missing)>>,
        <<"DefinedInListed", DefinedInMissing(c)>> >>
     \o
@@ -44,6 +45,7 @@ Clauses(c) ==
        <<"BuildByDefaultVsModel", IF c.has_ninja THEN {c.p.targets[t].name : t \in BbdWrong(c)} ELSE {}>>,
        <<"TestsVsModel", ModelTestsWrong(c)>>,
        <<"InstallVsModel", ModelInstallMissing(c)>>,
+       <<"InstallSubdirVsModel", ModelSubdirMissing(c)>>,
        <<"BuildFilesVsModel", BsVsModel(c)>> >>
     ELSE << >>)
 
